@@ -118,6 +118,7 @@ class Controller:
         self.op_events = 0
         self.in_call = False
         self.helper_token = {"released": False, "abandoned": False}
+        self.tokens = []
         self.mc = 1
         self.sched_thread = None
         self.invoker = threading.get_ident()
@@ -240,7 +241,13 @@ class Controller:
     def __call__(self, event, **f):
         getattr(self, "on_" + event)(**f)
 
+    def mine(self, token):
+        """The event belongs to an execution this controller has seen begin (a worker thread left over from an
+        earlier, failed run of the same process may still enter nodes: those events are not part of this history)."""
+        return any(token is t for t in self.tokens)
+
     def on_exec_begin(self, graph, exec_nodes, results, max_concurrency):
+        self.tokens += [results, graph]
         self.sched_thread = threading.get_ident()
         self.mc = max_concurrency
         self.execs += 1
@@ -249,9 +256,12 @@ class Controller:
         self.graph_cp = {i: graph.compound_priority[i] for i in graph.nodes}
 
     def on_exec_end(self, graph, results):
-        self.log("exec_end")
+        if self.mine(graph):
+            self.log("exec_end")
 
     def on_dispatch(self, xn, graph):
+        if not self.mine(graph):
+            return
         kind = RES_INV.get(xn.resource, "?")
         with self.cv:
             self.dispatched[xn.id] = kind
@@ -261,12 +271,20 @@ class Controller:
         self.log("dispatch", n=self.ix(xn.id), k=kind)
 
     def on_skip(self, xn, graph):
+        if not self.mine(graph):
+            return
         self.log("skip", n=self.ix(xn.id))
 
     def on_seq_defer(self, xn, graph):
+        if not self.mine(graph):
+            return
         self.log("seq_defer", n=self.ix(xn.id))
 
     def on_node_enter(self, xn, results):
+        if not self.mine(results):
+            _tls.ctl = None
+            return
+        _tls.ctl = self
         me = threading.get_ident()
         _tls.node = xn.id
         on_sched = me == self.sched_thread
@@ -290,6 +308,8 @@ class Controller:
             self.at_gate.discard(xn.id)
 
     def on_node_exit(self, xn, results, ok):
+        if not self.mine(results):
+            return
         self.log("exit", n=self.ix(xn.id), b=ok, r=self.recv.get(xn.id, ()))
         with self.cv:
             self.exited[xn.id] = ok
@@ -306,6 +326,8 @@ class Controller:
             self._wait_exit(choice)
 
     def on_wait_begin(self, kind, return_when, graph, futures, running):
+        if not self.mine(graph):
+            return
         ids = sorted((futures.inverse[f] for f in running), key=self.ix)
         mode = "ALL" if return_when == ALL_COMPLETED else "FIRST"
         self.log("wait_begin", k=kind, m=mode, s=[self.ix(i) for i in ids])
@@ -328,6 +350,8 @@ class Controller:
             self.helper.start()
 
     def on_wait_end(self, kind, graph, done):
+        if not self.mine(graph):
+            return
         if self.helper is not None and kind == "async":
             # normally the wait returns because the helper released an awaited node. It can also return because a node
             # that finished in the background is delivered now, or (a defect) because a completion is reported that did
@@ -469,7 +493,10 @@ CURRENT = None  # the controller of the run in progress (node bodies look it up)
 
 
 def _body(*args, **kwargs):
-    return CURRENT.body(args, kwargs)
+    ctl = getattr(_tls, "ctl", None)
+    if ctl is None:
+        return None         # a node of an execution that is over (left-over worker of an earlier run): not observed
+    return ctl.body(args, kwargs)
 
 
 def build_dag(cfg):
